@@ -268,6 +268,9 @@ func checkC13(c *Ctx) {
 		})
 	}
 	r.Ob("STOP-AFTER-EXIT", "ProcExit reports the latch even without a signal", "pkg/engine/runtime/context.go", okPE, "return ctx.procExit")
+	// every loop executor stops as soon as the exit latch is set (C14's poll rule: StmtRetrun is ProcExit, which
+	// reports the latch): otherwise statements of a loop body keep running after exit()
+	c14For(c, pRT)
 }
 
 func retValueIs(ret *ssa.Return, v ssa.Value) bool {
